@@ -3,6 +3,7 @@
 package keeper
 
 import (
+	"context"
 	"math/big"
 
 	sdkmath "cosmossdk.io/math"
@@ -48,7 +49,7 @@ type tunFeeds struct{ Prices []feedstypes.Price }
 func (f *tunFeeds) GetAllPrices(ctx sdk.Context) []feedstypes.Price { return f.Prices }
 
 // GetPrices reproduces x/feeds keeper GetPrices: one entry per requested id, in request order,
-// NOT_IN_CURRENT_FEEDS with price 0 for ids without a price.
+// NOT_IN_CURRENT_FEEDS with price 0 and the block time for ids without a price.
 func (f *tunFeeds) GetPrices(ctx sdk.Context, signalIDs []string) []feedstypes.Price {
 	out := make([]feedstypes.Price, 0, len(signalIDs))
 	for _, id := range signalIDs {
@@ -61,7 +62,7 @@ func (f *tunFeeds) GetPrices(ctx sdk.Context, signalIDs []string) []feedstypes.P
 			}
 		}
 		if !found {
-			out = append(out, feedstypes.NewPrice(feedstypes.PRICE_STATUS_NOT_IN_CURRENT_FEEDS, id, 0, 0))
+			out = append(out, feedstypes.NewPrice(feedstypes.PRICE_STATUS_NOT_IN_CURRENT_FEEDS, id, 0, ctx.BlockTime().Unix()))
 		}
 	}
 	return out
@@ -70,8 +71,12 @@ func (f *tunFeeds) GetPrices(ctx sdk.Context, signalIDs []string) []feedstypes.P
 // tunBandtss is the bandtss keeper seen by x/tunnel (used by the C08 harnesses): the signing fee is a
 // harness-chosen value, a signing request either fails (error or panic) without effects or charges the
 // fee from the sender to the bandtss module account and returns the next signing id.
+type tunSender interface {
+	SendCoinsFromAccountToModule(ctx context.Context, from sdk.AccAddress, mod string, amt sdk.Coins) error
+}
+
 type tunBandtss struct {
-	bank    *venv.LedgerBank
+	bank    tunSender
 	Fee     sdk.Coins
 	FeeErr  error
 	SignErr error
